@@ -32,8 +32,56 @@ pub static PROP: Prop = Prop {
     shard,
     replay,
     extra: crate::no_extra,
-    subcommand: crate::no_subcommand,
+    subcommand,
 };
+
+/// `swverif c03-bisect <file.sw> <hex script data>...`: compile the release pipeline with every
+/// prefix of its pass list (rounds = 1) and with each single pass removed; prints the results.
+fn subcommand(args: &[String]) -> Option<i32> {
+    if args.first().map(|s| s.as_str()) != Some("c03-bisect") {
+        return None;
+    }
+    let src = std::fs::read_to_string(&args[1]).expect("read source");
+    let datas: Vec<Vec<u8>> = args[2..].iter().map(|h| hex::decode(h).expect("hex")).collect();
+    let work = work_dir("bisect");
+    clean_dir(&work);
+    let mut am = Amortised::new(&work);
+    let (r, log) = with_hook(HookCfg::default(), false, || am.compile("gencase", &src, Profile::Release));
+    let default = log.default_list.clone();
+    let show = |tag: &str, r: Result<Compiled, String>| match r {
+        Ok(c) => println!("{tag}: {}", datas.iter().map(|d| run_script(&c.pkg.bytecode.bytes, d).short()).collect::<Vec<_>>().join(" | ")),
+        Err(e) => println!("{tag}: compile failed: {e}"),
+    };
+    show("default (hooked)", r.map_err(|e| e.to_string()));
+    println!("default list: {default:?}");
+    let dump = std::env::var("BISECT_DUMP").is_ok();
+    for k in 0..=default.len() {
+        // the mandatory lowering passes at the tail must stay: find them by keeping the last 7 always
+        let mut list: Vec<String> = default.iter().take(k).cloned().collect();
+        if std::env::var("BISECT_ROUND2").is_ok() {
+            // second round: the whole list, then a prefix of it
+            let mut l2 = default.clone();
+            l2.extend(list);
+            list = l2;
+        }
+        let cfg = HookCfg { replace: Some(list.clone()), rounds: Some(1), ..Default::default() };
+        let (r, log) = with_hook(cfg, dump, || am.compile("gencase", &src, Profile::Release));
+        show(&format!("prefix {k} (+{})", list.last().cloned().unwrap_or_default()), r.map_err(|e| e.to_string()));
+        if dump {
+            if let Some(ir) = &log.final_ir {
+                let _ = std::fs::write(work.join(format!("prefix{k:02}.ir")), ir);
+            }
+        }
+    }
+    for k in 0..default.len() {
+        let mut list = default.clone();
+        let removed = list.remove(k);
+        let cfg = HookCfg { replace: Some(list), ..Default::default() };
+        let (r, _) = with_hook(cfg, false, || am.compile("gencase", &src, Profile::Release));
+        show(&format!("without [{k}] {removed}"), r.map_err(|e| e.to_string()));
+    }
+    Some(0)
+}
 
 const O1: [&str; 18] = ["mem2reg", "fn-dedup-release", "inline", "arg_pointee_mutability_tagger", "simplify-cfg", "globals-dce", "dce", "inline", "arg_pointee_mutability_tagger", "ccp", "const-folding", "simplify-cfg", "cse", "const-folding", "simplify-cfg", "globals-dce", "dce", "fn-dedup-release"];
 
@@ -159,6 +207,11 @@ fn run_variant(am: &mut Amortised, case: &Case, base: &Baseline, pos: usize, ext
             any_returned = true;
         }
         if b.same_behaviour(&v) {
+            continue;
+        }
+        if matches!(compare_case(case, k, b), Cmp::OobNoRevert) || matches!(compare_case(case, k, &v), Cmp::OobNoRevert) {
+            // consequence of the listed C01 finding (unchecked run-time index): layout dependent
+            res.violation(crate::c01::OOB_SIG, format!("[input {k}] an unchecked out-of-bounds index makes baseline and variant differ: baseline {} / variant {}", b.short(), v.short()), replay.clone());
             continue;
         }
         if b.outcome.reverted() != v.outcome.reverted() {
